@@ -41,11 +41,11 @@ static const char *const kind_ext[NKINDS] = {
 
 enum { M_NONE, M_TOKDEL, M_TOKDUP, M_TOKSWAP, M_NUMPERTURB, M_KWREORDER,
        M_LINEDEL, M_LINEDUP, M_TRUNCATE, M_YAMLKIND, M_RANDBYTES, M_INSERT,
-       M_SPLICE, M_KWREPEAT, M_YAMLALIAS, M_TOKLEN, M_FREQEQ, NMUT };
+       M_SPLICE, M_KWREPEAT, M_YAMLALIAS, M_TOKLEN, M_FREQEQ, M_KWRESTATE, NMUT };
 static const char *const mut_name[NMUT] = {
     "none", "tokDel", "tokDup", "tokSwap", "numPerturb", "kwReorder",
     "lineDel", "lineDup", "truncate", "yamlKind", "randBytes", "insert",
-    "splice", "kwRepeat", "yamlAlias", "tokLen", "freqEq"
+    "splice", "kwRepeat", "yamlAlias", "tokLen", "freqEq", "kwRestate"
 };
 
 /* ------------------------------------------------------------------ seeds */
@@ -386,6 +386,14 @@ static void make_seeds(void)
 		20 + (uint64_t)i);
     }
     add_seed(K_S2P, hand_s2p_noise, sizeof(hand_s2p_noise) - 1);
+    /* version 2 content (with [Reference]) under the .sNp names as well:
+     * written as .ts, the loader takes the version from the content */
+    seed_data(K_S2P, VPT_S, 2, 2, 2, "Sri", VNADATA_FILETYPE_TOUCHSTONE2, 1,
+	    ".ts", 27);
+    seed_data(K_S3P, VPT_S, 3, 3, 2, "Sma", VNADATA_FILETYPE_TOUCHSTONE2, 1,
+	    ".ts", 37);
+    seed_data(K_S4P, VPT_Z, 4, 4, 2, "Zri", VNADATA_FILETYPE_TOUCHSTONE2, 1,
+	    ".ts", 47);
     seed_data(K_S3P, VPT_S, 3, 3, 2, "Sri", 0, 0, ".s3p", 30);
     seed_data(K_S3P, VPT_Z, 3, 3, 2, "Zma", 0, 0, ".s3p", 31);
     seed_data(K_S3P, VPT_Y, 3, 3, 3, "Yri", 0, 4, ".s3p", 32);
@@ -599,6 +607,8 @@ int main(int argc, char **argv)
 	    mut = M_TOKDEL + (int)(j / nmut_plan) % 3;
 	if (mut == M_FREQEQ && IS_YAMLTEXT(kind))
 	    mut = M_TOKLEN;
+	if (mut == M_KWRESTATE && IS_YAMLTEXT(kind))
+	    mut = M_YAMLALIAS;
 	lf_mutate(kind, mut, seedno, &rng, &in);
 	fprintf(stderr, "kind %s mut %s seed %d len %ld\n", kind_name[kind],
 		mut_name[mut], seedno, (long)in.n);
@@ -625,6 +635,8 @@ int main(int argc, char **argv)
 		mut = M_TOKDEL + (int)(j / nmut_plan) % 3;
 	    if (mut == M_FREQEQ && IS_YAMLTEXT(kind))
 		mut = M_TOKLEN;
+	    if (mut == M_KWRESTATE && IS_YAMLTEXT(kind))
+		mut = M_YAMLALIAS;
 	    lf_mutate(kind, mut, seedno, &rng, &in);
 	    snprintf(cid, sizeof(cid), "fuzz:%llu:%ld",
 		    (unsigned long long)seed, c);
